@@ -401,6 +401,10 @@ fn spec_pool(d: Dialect, ty: &Ty) -> Vec<CS> {
     if auto_ok {
         v.push(CS::AutoInc);
     }
+    if d == Dialect::Mysql && matches!(ty, Ty::Char(_) | Ty::Str(_) | Ty::Text) {
+        // free-form text after the column's specifications (MySQL takes column attributes in any order)
+        v.push(CS::Extra("COLLATE utf8mb4_bin".into()));
+    }
     v
 }
 
@@ -532,7 +536,14 @@ fn random_stmt(rng: &mut Rng, d: Dialect) -> S {
             for i in 0..k {
                 opts.push(match rng.below(6) {
                     0 => AlterOpt::AddColumn(random_col(rng, d, &format!("n{i}")), rng.coin()),
-                    1 => AlterOpt::ModifyColumn(random_col(rng, d, &format!("c{i}"))),
+                    1 => {
+                        let mut c = random_col(rng, d, &format!("c{i}"));
+                        if pg && rng.chance(1, 4) {
+                            // a conversion expression for the new type (it belongs right after the type)
+                            c.specs.insert(0, CS::Using(1 + rng.below(9) as i64));
+                        }
+                        AlterOpt::ModifyColumn(c)
+                    }
                     2 => {
                         let mut c = random_col(rng, d, &format!("c{i}"));
                         c.specs.retain(|s| !matches!(s, CS::Generated(..)));
